@@ -511,13 +511,25 @@ def views(ctx, m):
 
 # ---------------------------------------------------------------------------------- never crossed
 def never_crossed(ctx, m, rule="never-crossed"):
-    matchers = {f.path: side for (f, side, _c) in m.matchers()}
-    ctx.check(len(matchers) >= 2, rule, "matchers", "-", "%d matching loops found (passive sides %s)" % (len(matchers), sorted(matchers.values())))
-    roots = [m.book_fn("place_order"), m.book_fn("modify_order")]
-    live = [f for f in m.w.reachable(roots) if f.crate.name == "bourse_book"]
+    """judged on the whole-operation views of place_order / modify_order (independent of how placement, matching and
+    queueing are cut into helpers): every path to an insertion on side S has seen trading == false or has passed through
+    the matching loop whose passive side is opposite(S)"""
     n = 0
-    for f in live:
-        q = m.q(f)
+    n_loops = 0
+    for root in (m.book_fn("place_order"), m.book_fn("modify_order")):
+        q = m.ov(root)
+        loops = m.ov_matching_loops(q)
+        n_loops += len(loops)
+        # edges taken when trading is off
+        trading_off = []
+        for blk in q.body.blocks:
+            t = blk.term
+            if blk.cleanup or not t or t.k != "switch":
+                continue
+            for s in set(q.body.succs(blk.i)):
+                for a in q.cfg.edge_atoms(blk.i, s):
+                    if a[0] == "bool" and a[2] is False and fld(a[1], m.f_trading):
+                        trading_off.append((blk.i, s))
         for (c, side) in m.side_op_calls(q, "insert_order"):
             n += 1
             # branch outcomes that contradict the insertion's own controlling conditions (the same
@@ -531,12 +543,9 @@ def never_crossed(ctx, m, rule="never-crossed"):
                             if subj == repr(a[1]) and not (set(names) & set(a[2])):
                                 return True
                 return False
-            mcalls = [x for x in q.calls() if x.target is not None and x.target.path in matchers and matchers[x.target.path] == opposite(side)
-                      and not contradicts(x.guards)]
-            wrong = [x for x in q.calls() if x.target is not None and x.target.path in matchers and matchers[x.target.path] == side
-                     and q.cfg.can_reach(x.b, c.b) and not contradicts(x.guards)]
-            # edges taken when trading is off
-            off_edges = []
+            mloops = [(h, x) for (h, sd, x) in loops if sd == opposite(side) and not contradicts(q.cfg.guards(h))]
+            wrong = [(h, x) for (h, sd, x) in loops if sd == side and q.cfg.can_reach(h, c.b) and not contradicts(q.cfg.guards(h))]
+            off_edges = list(trading_off)
             for blk in q.body.blocks:
                 t = blk.term
                 if blk.cleanup or not t or t.k != "switch":
@@ -544,23 +553,16 @@ def never_crossed(ctx, m, rule="never-crossed"):
                 for s in set(q.body.succs(blk.i)):
                     if contradicts(q.cfg.edge_atoms(blk.i, s)):
                         off_edges.append((blk.i, s))
-            for blk in q.body.blocks:
-                t = blk.term
-                if blk.cleanup or not t or t.k != "switch":
-                    continue
-                for s in set(q.body.succs(blk.i)):
-                    for a in q.cfg.edge_atoms(blk.i, s):
-                        if a[0] == "bool" and a[2] is False and fld(a[1], m.f_trading):
-                            off_edges.append((blk.i, s))
-            cut = [x.b for x in mcalls]
+            cut = [h for (h, _x) in mloops]
             reach = q.cfg.reach_from(0, cut_edges=off_edges, cut_blocks=cut)
-            guarded = all(any(a[0] == "bool" and a[2] is True and fld(a[1], m.f_trading) for a in x.guards) for x in mcalls)
-            ok = bool(mcalls) and c.b not in reach and guarded and not wrong
-            ctx.check(ok, rule, "%s|%s" % (f.short(), side), c.loc(),
-                      "every path to the %s-side insertion either saw trading == false or ran the %s-side matching loop first" % (side, opposite(side)),
-                      "a path reaches the %s-side insertion with trading on and without running the %s-side matching loop%s" % (
-                          side, opposite(side), " (it runs the same-side loop instead)" if wrong else ""))
-    ctx.check(n >= 4, rule, "census", "-", "%d live insertion sites (reachable from place_order / modify_order)" % n)
+            guarded = all(any(a[0] == "bool" and a[2] is True and fld(a[1], m.f_trading) for a in q.cfg.guards(h)) for (h, _x) in mloops)
+            ok = bool(mloops) and c.b not in reach and guarded and not wrong
+            ctx.check(ok, rule, "%s|%s" % (root.short(), side), c.loc(),
+                      "%s: every path to the %s-side insertion either saw trading == false or ran the %s-side matching loop first" % (root.name, side, opposite(side)),
+                      "%s: a path reaches the %s-side insertion with trading on and without running the %s-side matching loop%s" % (
+                          root.name, side, opposite(side), " (it runs the same-side loop instead)" if wrong else ""))
+    ctx.check(n_loops >= 4, rule, "matchers", "-", "%d matching loops inside the whole-operation views of place_order / modify_order" % n_loops)
+    ctx.check(n >= 4, rule, "census", "-", "%d insertion sites in the whole-operation views of place_order / modify_order" % n)
     ctx.note("that the loop only exits when the limit no longer admits the opposite best price is premise K4 of C01")
 
 
